@@ -300,6 +300,78 @@ def worker(job):
     return part.dump()
 
 
+def dump_state(d):
+    return (tuple(d['stack']), tuple(d['alt']), d['vfsize'], d['vfff'], d['pc'], d['nop'], d['seq'], d['done'], d['script'], d['tce'])
+
+
+def repl_worker(job):
+    """the same relation through the real command table (fn_step / fn_rewind) of the btcdeb binary"""
+    bindir, idx, n = job
+    from vf import proc
+    rng = sub_rng(PROP, 'repl', idx)
+    part = Partial()
+    wd = scratch('c04r')
+    btcdeb = os.path.join(bindir, 'btcdeb')
+    try:
+        fs = [c for c in fixed_scripts() if not c.get('tx') and not c.get('succ')]
+        for j in range(n):
+            if rng.random() < 0.5:
+                c = rng.choice(fs)
+                script, stack = c['script'], c['stack']
+            else:
+                stack = gen.rnd_stack(rng)[:3]
+                script = gen.strip_sigops(gen.gen_deep(rng, BASE, STANDARD, rng.choice([3, 6, 10]), stack, fail_keep=0.0)) or bytes([OP_1])
+            nops = len(decode_all(script) or [])
+            args = ['0x' + script.hex()] + ['0x' + x.hex() for x in stack]
+            r0, base = proc.repl_session(btcdeb, args, ['step'] * (nops + 1), wd, timeout=60)
+            if r0.abnormal or len(base) != nops + 2:
+                part.inconc('repl-baseline')
+                continue
+            # states of the fresh session; stop at the first failing step
+            bstates = [dump_state(s['dump']) for s in base]
+            last_ok = 0
+            for k in range(1, len(bstates)):
+                if bstates[k][6] == bstates[k - 1][6] and not bstates[k][7]:
+                    break       # the step did not advance: it failed
+                last_ok = k
+            hist = random_walk(rng, nops, rng.choice([8, 20, 40]))
+            r, segs = proc.repl_session(btcdeb, args, ['step' if ch == 'S' else 'rewind' for ch in hist], wd, timeout=60)
+            part.evaluations += 1
+            wit = dict(script=script.hex(), stack=[x.hex() for x in stack], history=hist, via='btcdeb REPL')
+            if r.abnormal:
+                part.violation('repl:' + r.crash_key('btcdeb'), dict(wit, run=r.brief()))
+                continue
+            k = 0
+            bad = None
+            prev = dump_state(segs[0]['dump'])
+            for ch, sg in zip(hist, segs[1:]):
+                d = dump_state(sg['dump'])
+                if ch == 'S':
+                    if k >= last_ok:
+                        break
+                    k += 1
+                else:
+                    # accepted iff the sequence number went down or the done flag was cleared
+                    if d[6] < prev[6] or (prev[7] and not d[7]):
+                        k -= 1
+                        if k < 0:
+                            bad = (ch, k, ['rewind-accepted-at-start'])
+                            break
+                prev = d
+                if d != bstates[k]:
+                    bad = (ch, k, [n for n, a, b in zip(['stack', 'altstack', 'vfsize', 'vf-first-false', 'position', 'opcount', 'op-sequence', 'done-flag', 'script', 'commitment'], d, bstates[k]) if a != b])
+                    break
+            if bad:
+                wit['detail'] = str(bad)
+                part.violation('repl-state-differs-from-fresh-session:' + (bad[2][0] if bad[2] else '?'), wit)
+                continue
+            part.count('repl_histories', 'agree')
+            part.nontrivial.add(nt_hash('repl', script, hist))
+    finally:
+        cleanup_scratch(wd)
+    return part.dump()
+
+
 def main():
     ap = argparse.ArgumentParser()
     ap.add_argument('--tier', default=os.environ.get('VERIF_TIER', 'quick'))
@@ -327,6 +399,8 @@ def main():
     nfixed = len(fixed_scripts())
     jobs = [(bindir, 'fixed', i, a.tier) for i in range(nfixed)] + [(bindir, 'gen', i, a.tier) for i in range(16 if a.tier == 'quick' else 64)]
     for r in parallel(worker, jobs):
+        rep.merge(r)
+    for r in parallel(repl_worker, [(bindir, i, 8 if a.tier == 'quick' else 120) for i in range(16)]):
         rep.merge(r)
     rew = rep.tables.get('rewinds', {})
     return rep.finish(
